@@ -172,7 +172,7 @@ func Main(h Harness) {
 		raw, _ := json.Marshal(b)
 		pending[i] = wtask{Batch: raw}
 	}
-	crashes := 0
+	crashes, hangs := 0, 0
 	for round := 0; len(pending) > 0 && round < 200; round++ {
 		var retry []any
 		cur := pending
@@ -199,11 +199,22 @@ func Main(h Harness) {
 				}
 				name, replay := h.CaseName(args.Tier, t.Batch, ci)
 				sig := kind + ": " + crashClass(what)
-				if site := crashSite(o.Stderr); site != "" {
+				if o.TimedOut {
+					if site := hangSite(o.Stderr); site != "" {
+						sig += " in a call to " + site
+					}
+				} else if site := crashSite(o.Stderr); site != "" {
 					sig += " in " + site
 				}
 				rep.Violate(sig, fmt.Sprintf("case %s\n%s", name, lib.FatalLine(stripProgress(o.Stderr))+"\n"+tailLines(stripProgress(o.Stderr), 25)), replay)
-				if crashes < 500 {
+				if o.TimedOut {
+					hangs++
+				}
+				// A hang costs a whole watchdog period, so only a few are attributed one by one; after that (or past
+				// the budget) the rest of the batch is left unexplored and the run is reported as not exhaustive.
+				if o.TimedOut && (hangs > 3 || time.Now().After(deadline)) {
+					capped = true
+				} else if crashes < 500 {
 					retry = append(retry, wtask{Batch: t.Batch, From: ci + 1})
 				}
 				return
@@ -291,6 +302,34 @@ func crashClass(s string) string {
 // crashSite names a function of the module under test on the crashing goroutine's stack: the innermost one,
 // or - for unbounded recursion, where the innermost frame is arbitrary - the alphabetically first among the
 // innermost 60 frames (a stable representative of the cycle).
+// hangSite names the outermost function of the module under test on the stack of the goroutine that was running
+// when the watchdog's SIGQUIT arrived (the entry point of the call that does not return; the innermost frame of a
+// spinning loop differs from one dump to the next).
+func hangSite(stderr string) string {
+	lines := strings.Split(stderr, "\n")
+	for i, l := range lines {
+		if !strings.HasPrefix(l, "goroutine ") || !(strings.Contains(l, "[running]") || strings.Contains(l, "[runnable]")) || strings.HasPrefix(l, "goroutine 0 ") {
+			continue
+		}
+		site := ""
+		for _, fl := range lines[i+1:] {
+			if strings.TrimSpace(fl) == "" {
+				break
+			}
+			if strings.HasPrefix(fl, "\t") {
+				continue
+			}
+			if strings.Contains(fl, "pluginsdk/schema.") || strings.Contains(fl, "pluginsdk/atp.") || strings.Contains(fl, "pluginsdk/plugin.") {
+				site = lib.PanicSite(fl)
+			}
+		}
+		if site != "" && site != "?" {
+			return site
+		}
+	}
+	return ""
+}
+
 func crashSite(stderr string) string {
 	lines := strings.Split(stderr, "\n")
 	for i, l := range lines {
